@@ -1,20 +1,34 @@
 import MetricsVerif.Driver.Util
 import MetricsVerif.Model.Registry
+import MetricsVerif.Model.RegistryStore
+import MetricsVerif.Generated.SourceFacts
 
 /-
 Driver for the registry model (component `registry`).
 
-Keys arrive as `<class>:<hash>`: the ≈-class the harness assigns by its own canonicalisation (name + sorted
-labels) and the REAL 64-bit `Hashable::hashable()` value in decimal.  The model compares classes and uses
-the hash exactly as the code does (shard = hash & mask, lookup by hash and equality).
+Keys arrive as `<class>:<hash>:<maphash>`: the ≈-class the harness assigns by its own canonicalisation (name + sorted
+labels), the REAL 64-bit `Hashable::hashable()` value in decimal, and the REAL hash the shard map's own
+`BuildHasherDefault<KeyHasher>` computes for the key.  The model compares classes and uses the hashes exactly as the
+code does: shard = hash & mask, lookup by hash and equality, and a NEW entry is filed under the hash that the insertion
+call named by the source fact `Generated.reg_goc_insert_calls` uses (`Model/RegistryStore.lean`: `or_insert_with` → the
+map's hash; `insert_with_hasher(hash, .., |k| k.hashable())` → the looked-up hash; anything else → `bad-op`).
+`<class>:<hash>` is accepted as a key whose two hashes are equal.  The step machines (`run`, `lrun`) are one-hash
+machines: they answer `bad-op` for a program that contains a key the code would file under another hash than it
+looks it up with.
 
   registry new <shard count>                       → ok
   registry goc|get|del <c|g|h> <key>               → <id> | <id>/~ | true/false
   registry retain <c|g|h> <classes> <ids>          → what the predicate was called with (sorted); keeps an
                                                      entry iff its class is in <classes> or its id in <ids>
+  registry retainpanic <c|g|h>                     → ok   (a `retain_*` whose predicate unwinds at its first call: hashbrown's
+                                                     `retain` has removed nothing yet, later shards are not reached; the
+                                                     poisoned shard lock is recovered by every later lock call: no change)
   registry clear                                   → ok
   registry visit <c|g|h>                           → non-empty shards in shard order, each sorted: a:1,b:2;c:3
   registry handles <c|g|h>                         → sorted cls:id list
+  registry handlescls <c|g|h>                      → sorted classes of the snapshot map's keys (two-hash key stream: with several
+                                                     entries per key, which storage the map keeps depends on hashbrown's
+                                                     iteration order)
   registry created                                 → number of storages created so far
   registry run <count> <pre> <progs> <sched>       → labels | per-thread results | final listings | created
 -/
@@ -24,14 +38,40 @@ open MetricsVerif.Driver MetricsVerif.Registry
 structure DKey where
   cls : Nat
   hash : Nat
+  mhash : Nat
 
 def dko : KeyOps DKey := { eqv := fun a b => a.cls == b.cls, hash := fun a => a.hash }
 
+/-- the insertion call of this source tree -/
+def insertVia : Option InsertVia := insertViaOf Generated.reg_goc_insert_calls
+
+/-- the two-hash view of a key under this source tree's insertion call -/
+def dso : Option (StoreOps DKey) :=
+  match insertVia with
+  | some .mapHasher => some { ko := dko, storeHash := fun a => a.mhash }
+  | some .givenHash => some { ko := dko, storeHash := fun a => a.hash }
+  | none => none
+
 abbrev St := Reg DKey
 
-def keyTok (s : String) : Option DKey := do
-  let (c, h) ← pairTok String.toNat? String.toNat? s
-  pure { cls := c, hash := h }
+def keyTok (s : String) : Option DKey :=
+  match s.splitOn ":" with
+  | [c, h] => do
+    let c ← c.toNat?
+    let h ← h.toNat?
+    pure { cls := c, hash := h, mhash := h }
+  | [c, h, m] => do
+    let c ← c.toNat?
+    let h ← h.toNat?
+    let m ← m.toNat?
+    pure { cls := c, hash := h, mhash := m }
+  | _ => none
+
+/-- a key of a step-machine program: must be filed under the hash it is looked up with -/
+def keyTokCoh (s : String) : Option DKey := do
+  let k ← keyTok s
+  let so ← dso
+  if so.storeHash k = k.hash then pure k else none
 
 def kindTok : String → Option Kind
   | "c" => some .counter | "g" => some .gauge | "h" => some .histogram | _ => none
@@ -49,7 +89,7 @@ def callTok (s : String) : Option (Call DKey) :=
   match s.splitOn "/" with
   | [o, kd, k] => do
     let kd ← kindTok kd
-    let k ← keyTok k
+    let k ← keyTokCoh k
     match o with
     | "g" => some (.goc kd k) | "r" => some (.get kd k) | "d" => some (.delete kd k) | _ => none
   | _ => none
@@ -83,7 +123,7 @@ def lcallTok (s : String) : Option (LCall DKey) :=
     pure (.retain (← kindTok kd) (fun k _ => cs.contains k.cls) (← boolTok h))
   | [o, kd, k] => do
     let kd ← kindTok kd
-    let k ← keyTok k
+    let k ← keyTokCoh k
     match o with
     | "g" => some (.goc kd k) | "r" => some (.get kd k) | "d" => some (.delete kd k) | _ => none
   | _ => none
@@ -145,8 +185,11 @@ def handle (st : Option St) (args : List String) : Option (Option St × String) 
     let r ← st
     match op, rest with
     | "goc", [kd, k] =>
-      let (r', i) := getOrCreate dko r (← kindTok kd) (← keyTok k)
+      let (r', i) := getOrCreateS (← dso) r (← kindTok kd) (← keyTok k)
       pure (some r', toString i)
+    | "retainpanic", [kd] =>
+      let _ ← kindTok kd
+      pure (some r, "ok")
     | "get", [kd, k] =>
       pure (some r, match getExisting dko r (← kindTok kd) (← keyTok k) with | some i => toString i | none => "~")
     | "del", [kd, k] =>
@@ -160,6 +203,9 @@ def handle (st : Option St) (args : List String) : Option (Option St × String) 
     | "clear", [] => pure (some (clear r), "ok")
     | "visit", [kd] => pure (some r, showShards (visitShards r (← kindTok kd)))
     | "handles", [kd] => pure (some r, showPairs (handles dko r (← kindTok kd)))
+    | "handlescls", [kd] =>
+      pure (some r, showList (fun (c : Nat) => toString c)
+        (((handles dko r (← kindTok kd)).map (fun p => p.1.cls)).mergeSort (fun a b => decide (a ≤ b))))
     | "created", [] => pure (some r, toString r.next)
     | _, _ => none
   | _ => none
